@@ -518,6 +518,23 @@ func ruleC16Full(cx *Ctx) {
 					ok = true
 					continue
 				}
+				// any other spelling of the same linear expression (capacity + c - p, ...)
+				{
+					tb := newInliningTermBuilder()
+					tb.subst[bparam(avail, 1)] = tVar("P")
+					tb.subst[bparam(avail, 2)] = tVar("C")
+					lf := linearForm(tb.of(v))
+					capAtom := ""
+					for a := range lf {
+						if strings.HasPrefix(a, "field:maxQueueCapacity(") {
+							capAtom = a
+						}
+					}
+					if capAtom != "" && sameLinear(lf, map[string]int64{capAtom: 1, "P": -1, "C": 1}) {
+						ok = true
+						continue
+					}
+				}
 				// a saturating form: 0 exactly when the size p - c has reached the capacity
 				sat := false
 				if k, isK := constInt(v); isK && k == 0 {
@@ -743,6 +760,9 @@ func ruleC16Pop(cx *Ctx) {
 	ps.inlinePkgs = map[string]bool{pkgPath(queuePkg): true}
 	ps.alsoRelevant = []string{"." + fname(jump) + ")", "Eq(atomic:Load#"}
 	ps.trackLoads = true
+	for _, h := range cx.P.FuncsOfPkg(queuePkg) {
+		ps.inlineLoops[origin(h)] = true // the spin on an unpublished slot may live in a helper
+	}
 	outs := ps.Run(fn, nil)
 	cx.R.AddInt("paths_enumerated", len(outs))
 	if ps.capped {
@@ -962,7 +982,7 @@ func ruleC16Atomic(cx *Ctx) {
 			}
 			n++
 			for _, u := range usesOf(ia) {
-				ok := isAtomicPtr(u, "LoadPointer") || isAtomicPtr(u, "StorePointer")
+				ok := isAtomicPtr(u, "LoadPointer") || isAtomicPtr(u, "StorePointer") || slotHandedToAtomicOnly(u, ia, 0)
 				cx.R.Check(ok, rule, name, fmt.Sprintf("slot access #%d", n), cx.P.where(u), "element slot accessed through sync/atomic")
 			}
 		})
@@ -973,6 +993,43 @@ func ruleC16Atomic(cx *Ctx) {
 			}
 		})
 	}
+}
+
+// slotHandedToAtomicOnly: u hands the slot address to a function of the module whose corresponding parameter is used for
+// nothing but atomic.LoadPointer / atomic.StorePointer (or handed on to such a function): the access stays atomic.
+func slotHandedToAtomicOnly(u ssa.Instruction, addr ssa.Value, depth int) bool {
+	c, ok := u.(*ssa.Call)
+	if !ok || c.Call.IsInvoke() || depth > 3 {
+		return false
+	}
+	h := c.Call.StaticCallee()
+	if h == nil || origin(h).Pkg == nil || !strings.HasPrefix(origin(h).Pkg.Pkg.Path(), modPath) || len(origin(h).Blocks) == 0 {
+		return false
+	}
+	o := origin(h)
+	found := false
+	for k, a := range c.Call.Args {
+		if a != addr {
+			continue
+		}
+		if k >= len(o.Params) {
+			return false
+		}
+		found = true
+		for _, r := range *o.Params[k].Referrers() {
+			if _, isDbg := r.(*ssa.DebugRef); isDbg {
+				continue
+			}
+			if (isAtomicPtr(r, "LoadPointer") || isAtomicPtr(r, "StorePointer")) && callCommon(r).Args[0] == ssa.Value(o.Params[k]) {
+				continue
+			}
+			if slotHandedToAtomicOnly(r, o.Params[k], depth+1) {
+				continue
+			}
+			return false
+		}
+	}
+	return found
 }
 
 // ruleC16Single: the single-consumer assumption. TryPop on the cache's write buffer only with the eviction lock held.
@@ -1015,7 +1072,7 @@ func ruleC16Init(cx *Ctx) {
 	allInstrs(fn, func(in ssa.Instruction) {
 		if st, ok := in.(*ssa.Store); ok && sameField(fieldOf(st.Addr), mq) {
 			found = true
-			got := newTermBuilder().of(st.Val).String()
+			got := newInliningTermBuilder().of(st.Val).String()
 			cx.R.Check(got == wantMax, rule, name, "maxQueueCapacity", cx.P.where(st), "maxQueueCapacity = RoundUpPowerOf2(maxCapacity) << 1 (got "+got+")")
 		}
 	})
@@ -1027,7 +1084,7 @@ func ruleC16Init(cx *Ctx) {
 		fv := cx.P.Field(queuePkg, "MPSC", f)
 		allInstrs(fn, func(in ssa.Instruction) {
 			if atomicOp(in, fv, "Store") {
-				got := newTermBuilder().of(callArgs(in)[0]).String()
+				got := newInliningTermBuilder().of(callArgs(in)[0]).String()
 				masks++
 				cx.R.Check(got == wantMask, rule, name, f, cx.P.where(in), f+" = (RoundUpPowerOf2(initialCapacity) - 1) << 1 (got "+got+")")
 			}
@@ -1039,7 +1096,7 @@ func ruleC16Init(cx *Ctx) {
 	nb := cx.P.Func(queuePkg, "", "newBuffer")
 	allInstrs(fn, func(in ssa.Instruction) {
 		if nb != nil && isCallTo(in, nb) {
-			got := newTermBuilder().of(callArgs(in)[0]).String()
+			got := newInliningTermBuilder().of(callArgs(in)[0]).String()
 			okLen = got == mk("+", p2("param0"), tConst(1)).String()
 		}
 	})
